@@ -102,30 +102,38 @@ Lemma build_from_app tbl ef a : forall b st,
   build_from tbl ef (a ++ b) st =
   match build_from tbl ef a st with BOk st1 => build_from tbl ef b st1 | BErr e => BErr e | BFuel => BFuel end.
 Proof.
-  destruct ef as [|ef]; [reflexivity|]. induction a as [|e r IH]; intros b st; [reflexivity|].
-  cbn [app]. cbn [build_from]. cbn [build_from] in IH.
+  induction a as [|e r IH]; intros b st; [rewrite (build_from_eq tbl ef [] st); reflexivity|].
+  cbn [app]. rewrite (build_from_eq tbl ef (e :: r ++ b) st), (build_from_eq tbl ef (e :: r) st). unfold bnext.
   destruct e as [cs lid|t attrs|ch|tg dt|t|]; try apply IH.
   - destruct (cb_start_element t attrs st); try reflexivity. apply IH.
   - destruct (syncml_data_type (b_stack st)).
     + destruct (add_to_current st (TText ch)); try reflexivity. apply IH.
-    + destruct (parse_with tbl 0 (b_charset st) (S (length ch)) ch); try reflexivity.
-      * destruct (build_from tbl ef a st_init); try reflexivity.
-        -- destruct (add_to_current st _); try reflexivity. apply IH.
-        -- destruct (add_to_current st (TText ch)); try reflexivity. apply IH.
+    + destruct ef as [|lv].
       * destruct (add_to_current st (TText ch)); try reflexivity. apply IH.
+      * destruct (parse_with tbl 0 (b_charset st) (S (length ch)) ch) as [evs'| |]; try reflexivity.
+        -- destruct (build_from tbl lv evs' st_init); try reflexivity.
+           ++ cbv zeta. destruct (add_to_current st _); try reflexivity. apply IH.
+           ++ destruct (add_to_current st (TText ch)); try reflexivity. apply IH.
+        -- destruct (add_to_current st (TText ch)); try reflexivity. apply IH.
     + destruct (add_to_current (open_cdata st) (TText ch)); try reflexivity. apply IH.
   - destruct (cb_end_element st); try reflexivity. apply IH.
 Qed.
 
-Lemma build_from_start tbl ef t a st : build_from tbl (S ef) [EvStartElt t a] st = cb_start_element t a st.
-Proof. cbn [build_from]. destruct (cb_start_element t a st); reflexivity. Qed.
-Lemma build_from_end tbl ef t st : build_from tbl (S ef) [EvEndElt t] st = cb_end_element st.
-Proof. cbn [build_from]. destruct (cb_end_element st); reflexivity. Qed.
+Lemma build_from_nil tbl ef st : build_from tbl ef [] st = BOk st.
+Proof. rewrite build_from_eq. reflexivity. Qed.
+Lemma build_from_start tbl ef t a st : build_from tbl ef [EvStartElt t a] st = cb_start_element t a st.
+Proof. rewrite build_from_eq. unfold bnext. destruct (cb_start_element t a st); try reflexivity. apply build_from_nil. Qed.
+Lemma build_from_end tbl ef t st : build_from tbl ef [EvEndElt t] st = cb_end_element st.
+Proof. rewrite build_from_eq. unfold bnext. destruct (cb_end_element st); try reflexivity. apply build_from_nil. Qed.
+Lemma build_from_startdoc tbl ef cs lid st : build_from tbl ef [EvStartDoc cs lid] st = BOk (mk_bstate lid cs (b_stack st) (b_root st)).
+Proof. rewrite build_from_eq. apply build_from_nil. Qed.
+Lemma build_from_enddoc tbl ef st : build_from tbl ef [EvEndDoc] st = BOk st.
+Proof. rewrite build_from_eq. apply build_from_nil. Qed.
 
-Lemma build_from_pis tbl ef p st : all_pi p = true -> build_from tbl (S ef) p st = BOk st.
+Lemma build_from_pis tbl ef p st : all_pi p = true -> build_from tbl ef p st = BOk st.
 Proof.
-  revert st. induction p as [|e r IH]; intros st H; [reflexivity|]. cbn [all_pi forallb] in H. apply andb_prop in H. destruct H as [He Hr].
-  destruct e; try discriminate. cbn [build_from]. cbn [build_from] in IH. apply IH. exact Hr.
+  revert st. induction p as [|e r IH]; intros st H; [apply build_from_nil|]. cbn [all_pi forallb] in H. apply andb_prop in H. destruct H as [He Hr].
+  destruct e; try discriminate. rewrite build_from_eq. apply IH. exact Hr.
 Qed.
 
 (* a balanced run under an open element: the element stays open, its new children are at most d deep *)
@@ -134,12 +142,11 @@ Lemma run_bal tbl ef d evs : bal d evs -> forall st f up st',
   exists f', b_stack st' = f' :: up /\ f_tag f' = f_tag f /\ f_attrs f' = f_attrs f
              /\ (fdepth f' <= Nat.max (fdepth f) d)%nat /\ b_root st' = b_root st.
 Proof.
-  destruct ef as [|ef]; [intros _ st f up st' _ H; discriminate|].
   induction 1 as [d|d e r Hf Hr IH|d t a inner r Hi IHi Hr IHr]; intros st f up st' Hs H.
-  - cbn in H. injection H as <-. exists f. repeat split; [exact Hs|lia].
+  - rewrite build_from_nil in H. injection H as <-. exists f. repeat split; [exact Hs|lia].
   - assert (Hadd : forall s0 f0 n, b_stack s0 = f0 :: up -> f_tag f0 = f_tag f -> f_attrs f0 = f_attrs f ->
                      (fdepth f0 <= Nat.max (fdepth f) d)%nat -> b_root s0 = b_root st -> ndepth n = 0%nat ->
-                     forall s1, add_to_current s0 n = BOk s1 -> build_from tbl (S ef) r s1 = BOk st' ->
+                     forall s1, add_to_current s0 n = BOk s1 -> build_from tbl ef r s1 = BOk st' ->
                      exists f', b_stack st' = f' :: up /\ f_tag f' = f_tag f /\ f_attrs f' = f_attrs f
                                 /\ (fdepth f' <= Nat.max (fdepth f) d)%nat /\ b_root st' = b_root st).
     { intros s0 f0 n H0 Ht Ha Hd Hro Hn s1 Ea Hb. unfold add_to_current in Ea. rewrite H0 in Ea.
@@ -155,14 +162,17 @@ Proof.
         - pose proof (ldepth_add_node (f_done f0) n). lia. }
       destruct Hfn as (T1 & T2 & T3).
       exists f'. repeat split; try congruence. lia. }
-    destruct e as [cs lid|t attrs|ch|tg dt|t|]; cbn [flat] in Hf; try contradiction; cbn [build_from] in H.
+    destruct e as [cs lid|t attrs|ch|tg dt|t|]; cbn [flat] in Hf; try contradiction; rewrite build_from_eq in H; unfold bnext in H.
     + destruct (IH (mk_bstate lid cs (b_stack st) (b_root st)) f up st' Hs H) as (f' & E). exists f'. exact E.
     + destruct (syncml_data_type (b_stack st)).
       * destruct (add_to_current st (TText ch)) as [s1|er1|] eqn:Ea; try discriminate.
         apply (Hadd st f (TText ch) Hs eq_refl eq_refl ltac:(lia) eq_refl eq_refl s1 Ea H).
-      * destruct (parse_with tbl 0 (b_charset st) (S (length ch)) ch) as [evs'|er2|]; try discriminate.
-        -- destruct (build_from tbl ef evs' st_init) as [st2|er3|]; try discriminate.
-           ++ destruct (add_to_current st _) as [s1|er1|] eqn:Ea; try discriminate.
+      * destruct ef as [|lv].
+        { destruct (add_to_current st (TText ch)) as [s1|er1|] eqn:Ea; try discriminate.
+          apply (Hadd st f (TText ch) Hs eq_refl eq_refl ltac:(lia) eq_refl eq_refl s1 Ea H). }
+        destruct (parse_with tbl 0 (b_charset st) (S (length ch)) ch) as [evs'|er2|]; try discriminate.
+        -- destruct (build_from tbl lv evs' st_init) as [st2|er3|]; try discriminate.
+           ++ cbv zeta in H. destruct (add_to_current st _) as [s1|er1|] eqn:Ea; try discriminate.
               apply (Hadd st f (TSub (wt_lang (tree_of_state st2)) (wt_charset (tree_of_state st2)) (wt_root (tree_of_state st2))) Hs eq_refl eq_refl ltac:(lia) eq_refl eq_refl s1 Ea H).
            ++ destruct (add_to_current st (TText ch)) as [s1|er1|] eqn:Ea; try discriminate.
               apply (Hadd st f (TText ch) Hs eq_refl eq_refl ltac:(lia) eq_refl eq_refl s1 Ea H).
@@ -183,7 +193,7 @@ Proof.
     rewrite build_from_start in H. unfold cb_start_element in H. rewrite Hs in H.
     set (st1 := mk_bstate (b_lang st) (b_charset st) (mk_frame t a [] None :: leave_cdata f :: up) (b_root st)) in H.
     rewrite build_from_app in H.
-    destruct (build_from tbl (S ef) inner st1) as [st2|er|] eqn:E2; try discriminate.
+    destruct (build_from tbl ef inner st1) as [st2|er|] eqn:E2; try discriminate.
     rewrite build_from_app in H.
     destruct (IHi st1 (mk_frame t a [] None) (leave_cdata f :: up) st2 eq_refl E2) as (g' & G1 & G2 & G3 & G4 & G5).
     rewrite build_from_end in H. unfold cb_end_element in H. rewrite G1 in H.
@@ -212,24 +222,24 @@ Theorem build_depth tbl forced meta fuel bs evs ef t :
   parse_with tbl forced meta fuel bs = POk evs -> build tbl ef evs = BOk t -> (tdepth t <= 1001)%nat.
 Proof.
   intros Hp Hb. destruct (parse_doc_shape _ _ _ _ _ _ Hp) as (cs & lid & p1 & tg & a & inner & p2 & -> & H1 & H2 & Hbal).
-  unfold build in Hb. destruct ef as [|ef]; [discriminate|].
-  destruct (build_from tbl (S ef) _ st_init) as [st|e|] eqn:E; try discriminate. injection Hb as <-.
+  unfold build in Hb.
+  destruct (build_from tbl ef _ st_init) as [st|e|] eqn:E; try discriminate. injection Hb as <-.
   change (EvStartDoc cs lid :: (p1 ++ (EvStartElt tg a :: inner ++ [EvEndElt tg]) ++ p2) ++ [EvEndDoc])
     with ([EvStartDoc cs lid] ++ (p1 ++ ([EvStartElt tg a] ++ inner ++ [EvEndElt tg]) ++ p2) ++ [EvEndDoc]) in E.
-  rewrite build_from_app in E. change (build_from tbl (S ef) [EvStartDoc cs lid] st_init) with (BOk (mk_bstate lid cs [] None)) in E.
+  rewrite build_from_app in E. rewrite build_from_startdoc in E. change (mk_bstate lid cs (b_stack st_init) (b_root st_init)) with (mk_bstate lid cs [] None) in E.
   cbv beta iota in E. rewrite build_from_app in E. rewrite build_from_app in E.
   rewrite (build_from_pis tbl ef p1 _ H1) in E. cbv beta iota in E.
   rewrite build_from_app in E. rewrite build_from_app in E.
   rewrite build_from_start in E. change (cb_start_element tg a (mk_bstate lid cs [] None)) with (BOk (mk_bstate lid cs [mk_frame tg a [] None] None)) in E.
   cbv beta iota in E. rewrite build_from_app in E.
-  destruct (build_from tbl (S ef) inner (mk_bstate lid cs [mk_frame tg a [] None] None)) as [st2|er|] eqn:E2; try discriminate.
-  destruct (run_bal tbl (S ef) 1000 inner Hbal (mk_bstate lid cs [mk_frame tg a [] None] None) (mk_frame tg a [] None) [] st2 eq_refl E2) as (g & G1 & _ & _ & G4 & G5).
+  destruct (build_from tbl ef inner (mk_bstate lid cs [mk_frame tg a [] None] None)) as [st2|er|] eqn:E2; try discriminate.
+  destruct (run_bal tbl ef 1000 inner Hbal (mk_bstate lid cs [mk_frame tg a [] None] None) (mk_frame tg a [] None) [] st2 eq_refl E2) as (g & G1 & _ & _ & G4 & G5).
   change (fdepth (mk_frame tg a [] None)) with 0%nat in G4. cbn [b_root] in G5.
   cbv beta iota in E. rewrite build_from_end in E. unfold cb_end_element in E. rewrite G1 in E.
   assert (Hfin : forall s3, tdepth (tree_of_state s3) = S (fdepth g) ->
-            match build_from tbl (S ef) p2 s3 with BOk st1 => build_from tbl (S ef) [EvEndDoc] st1 | BErr e => BErr e | BFuel => BFuel end = BOk st ->
+            match build_from tbl ef p2 s3 with BOk st1 => build_from tbl ef [EvEndDoc] st1 | BErr e => BErr e | BFuel => BFuel end = BOk st ->
             (tdepth (tree_of_state st) <= 1001)%nat).
-  { intros s3 Hd Hx. rewrite (build_from_pis tbl ef p2 s3 H2) in Hx. cbn in Hx. injection Hx as <-. lia. }
+  { intros s3 Hd Hx. rewrite (build_from_pis tbl ef p2 s3 H2) in Hx. rewrite build_from_enddoc in Hx. injection Hx as <-. lia. }
   destruct (f_cdata g) eqn:Ec.
   - apply (Hfin (mk_bstate (b_lang st2) (b_charset st2) [] (Some (frame_node g [])))); [|exact E].
     unfold tdepth, tree_of_state. cbn [b_stack b_root wt_root]. apply frame_node_depth.
